@@ -52,7 +52,7 @@ class _Repo:
 class _Branch(_Lockable):
     def __init__(self, log, name, revno, tip, graph, master=None, bound=False):
         _Lockable.__init__(self, log, name)
-        self.revno, self.tip = revno, tip
+        self._revno, self.tip = revno, tip
         self.repository = _Repo(graph)
         self.master = master
         self.bound = bound
@@ -64,14 +64,17 @@ class _Branch(_Lockable):
         return self.master
 
     def last_revision_info(self):
-        return self.revno, self.tip
+        return self._revno, self.tip
+
+    def revno(self):
+        return self._revno
 
     def last_revision(self):
         return self.tip
 
     def set_last_revision_info(self, revno, revid):
         self.log.append(("set_tip", self.name, revno, revid))
-        self.revno, self.tip = revno, revid
+        self._revno, self.tip = revno, revid
 
     def supports_tags(self):
         return True
